@@ -7,6 +7,9 @@ import Proofs.C15Crc8
 import Proofs.C15Riff
 import Proofs.C15Gif
 import Proofs.C15Zip
+import Proofs.C15Png
+import Proofs.C15Gz
+import FqModel.ContainerTar
 /-!
   C15 — container decoders report what independent writers stored: property theorems.
 
@@ -418,5 +421,225 @@ theorem zip_stored_dd_witness :
       .ok { name := [0x61], method := 0, dd := true, lang := false, crc := 1438416925, csize := 0, usize := 0, uncompressed := some [],
             compressedLen := none, di := some ⟨none, 1342374401, 487065419, 55950464⟩, date := zipDate 0x6000 0x8c21, extras := [] } := by
   decide +kernel
+
+/-! ## zlib framing (RFC 1950) as Go's compress/zlib reader — the code on fq's zTXt / iCCP path — checks it -/
+
+/-- every header a writer can choose (window 2^8..2^15, the four FLEVEL classes, no preset dictionary), ANY deflate bytes `z`
+    for ANY payload (inflate = library code, a parameter), the Adler-32 trailer: the reader recovers CM = 8, CINFO, FLEVEL,
+    FCHECK, FDICT = 0, the payload, the stored Adler-32, and leaves the bytes after the trailer unread -/
+theorem zlib_roundtrip (inflate : Bytes → Option (Nat × Bytes)) (cinfo flevel : Nat) (hc : cinfo ≤ 7) (hl : flevel ≤ 3)
+    (z data rest : Bytes) (hinf : inflate (z ++ (toBE 4 (adler32 data) ++ rest)) = some (z.length, data)) :
+    parseZlib inflate (writeZlib cinfo flevel none z data ++ rest) =
+      .ok ({ hdr := { cm := 8, cinfo, fcheck := zlibFcheck (zlibCmf cinfo) (zlibFlgHi flevel false), fdict := false, flevel },
+             dictid := none, clen := z.length, data, adler := adler32 data }, rest) := by
+  have := zlib_rt_gen inflate cinfo flevel hc hl z data rest (adler32 data) (adler32_lt data) hinf
+  simp only [ne_eq, not_true_eq_false, if_false] at this
+  simpa [writeZlib, List.append_assoc] using this
+
+example : (fun (_ : Bytes) => some (2, [0x61])) ([3, 0] ++ (toBE 4 (adler32 [0x61]) ++ [])) = some (([3, 0] : Bytes).length, [0x61]) := rfl
+/-- the header Go's and zlib's writers emit at the default level is the instance cinfo = 7, flevel = 2: bytes 78 9c -/
+example : writeZlibHeader 7 2 none = [0x78, 0x9c] := by decide
+example : writeZlibHeader 7 0 none = [0x78, 0x01] ∧ writeZlibHeader 7 3 none = [0x78, 0xda] ∧ writeZlibHeader 7 1 none = [0x78, 0x5e] := by decide
+
+/-- a stored Adler-32 that is not the payload's is `zlib.ErrChecksum` — for fq a decode error of the chunk (there is no
+    valid/invalid flag on this path); with `adler32_detects_byte`, so is every single altered payload byte that inflates -/
+theorem zlib_adler_mismatch_error (inflate : Bytes → Option (Nat × Bytes)) (cinfo flevel : Nat) (hc : cinfo ≤ 7) (hl : flevel ≤ 3)
+    (z data rest : Bytes) (stored : Nat) (hs : stored < 2 ^ 32) (hne : stored ≠ adler32 data)
+    (hinf : inflate (z ++ (toBE 4 stored ++ rest)) = some (z.length, data)) :
+    parseZlib inflate (writeZlibHeader cinfo flevel none ++ (z ++ (toBE 4 stored ++ rest))) = .error .checksum := by
+  rw [zlib_rt_gen inflate cinfo flevel hc hl z data rest stored hs hinf]
+  simp [hne]
+
+/-- FCHECK: a header whose 16 bit value is not a multiple of 31 (or CM ≠ 8, or a window above 32 KiB) is `zlib.ErrHeader`,
+    whatever follows -/
+theorem zlib_fcheck_required (inflate : Bytes → Option (Nat × Bytes)) (cmf flg : UInt8) (rest : Bytes)
+    (h : cmf.toNat % 16 ≠ 8 ∨ cmf.toNat / 16 > 7 ∨ (cmf.toNat * 256 + flg.toNat) % 31 ≠ 0) :
+    parseZlib inflate (cmf :: flg :: rest) = .error .header := by
+  simp [parseZlib, zlibHdr2, h]
+
+/-- … and the writer's FCHECK satisfies it for all 8 x 4 x 2 headers -/
+theorem zlib_fcheck_ok : ∀ (c : Fin 8) (l : Fin 4) (d : Bool),
+    (zlibCmf c * 256 + (zlibFlgHi l d + zlibFcheck (zlibCmf c) (zlibFlgHi l d))) % 31 = 0 ∧
+    zlibFlgHi l d + zlibFcheck (zlibCmf c) (zlibFlgHi l d) < 256 ∧ zlibFcheck (zlibCmf c) (zlibFlgHi l d) < 32 := by decide
+
+/-- FDICT: the reader fq uses has no preset dictionary, so a stream announcing one is `zlib.ErrDictionary` — except for the
+    DICTID 1 = Adler-32 of the empty dictionary, which the library accepts (quirk kept); then everything is recovered as above -/
+theorem zlib_fdict (inflate : Bytes → Option (Nat × Bytes)) (cinfo flevel : Nat) (hc : cinfo ≤ 7) (hl : flevel ≤ 3)
+    (id : Nat) (hid : id < 2 ^ 32) (z data rest : Bytes) (hinf : inflate (z ++ (toBE 4 (adler32 data) ++ rest)) = some (z.length, data)) :
+    parseZlib inflate (writeZlib cinfo flevel (some id) z data ++ rest) =
+      if id ≠ 1 then .error .dict
+      else .ok ({ hdr := { cm := 8, cinfo, fcheck := zlibFcheck (zlibCmf cinfo) (zlibFlgHi flevel true), fdict := true, flevel },
+                  dictid := some 1, clen := z.length, data, adler := adler32 data }, rest) := by
+  have := zlib_rt_dict inflate cinfo flevel hc hl id hid z data rest (adler32 data) (adler32_lt data) hinf
+  simp only [ne_eq, not_true_eq_false, if_false] at this
+  simpa [writeZlib, List.append_assoc] using this
+
+/-! ## png: IHDR / PLTE / tRNS bodies, the IDAT stream -/
+
+/-- IHDR: ANY width / height below 2^32 and ANY byte for bit depth, colour type, compression, filter, interlace — in particular
+    all 15 legal (colour type, bit depth) pairs with interlace 0 and 1 — are read back -/
+theorem png_ihdr_roundtrip (i : Ihdr) (hw : i.width < 2 ^ 32) (hh : i.height < 2 ^ 32) (hb : i.bitDepth < 256) (hc : i.colorType < 256)
+    (hm : i.compression < 256) (hf : i.filter < 256) (hi : i.interlace < 256) (ct : Nat) :
+    pngBody ct tIHDR (writeIHDR i) = some (.ihdr i) ∧ (writeIHDR i).length = 13 := by
+  refine ⟨?_, writeIHDR_length i⟩
+  simp [pngBody, ihdr_rt i hw hh hb hc hm hf hi]
+
+/-- the legal combinations are in that domain (15 pairs) -/
+example : ((List.range 7).flatMap fun ct => (List.range 17).filter (pngLegal ct)).length = 15 ∧
+    ∀ ct < 7, ∀ bd < 17, pngLegal ct bd = true → bd < 256 ∧ ct < 256 := by decide
+
+/-- PLTE: any number of entries (1..256 in a legal file) is read back, the chunk length is three times the number of
+    entries, and a length that is not a multiple of three is a decode error -/
+theorem png_plte_roundtrip (cols : List (UInt8 × UInt8 × UInt8)) (ct : Nat) :
+    pngBody ct tPLTE (writePlte cols) = some (.plte cols) ∧ (writePlte cols).length = 3 * cols.length := by
+  refine ⟨?_, writePlte_length cols⟩
+  simp [pngBody, plte_rt cols, show tPLTE ≠ tIHDR by decide]
+
+theorem png_plte_bad_size (d : Bytes) (h : d.length % 3 ≠ 0) (ct : Nat) : pngBody ct tPLTE d = none := by
+  simp [pngBody, plte_bad_size d.length d (Nat.le_refl _) h, show tPLTE ≠ tIHDR by decide]
+
+/-- tRNS: what is decoded depends on the colour type of the IHDR seen before: one 16 bit grey sample (type 0), three 16 bit
+    samples (type 2), one alpha byte per palette entry — any number — (type 3), nothing otherwise -/
+theorem png_trns_roundtrip (a r g b : Nat) (ha : a < 65536) (hr : r < 65536) (hg : g < 65536) (hb : b < 65536) (alphas : Bytes) :
+    pngBody 0 tTRNS (toBE 2 a) = some (.trnsGray a) ∧
+    pngBody 2 tTRNS (toBE 2 r ++ toBE 2 g ++ toBE 2 b) = some (.trnsRgb r g b) ∧
+    pngBody 3 tTRNS alphas = some (.trnsPal alphas) ∧
+    pngBody 4 tTRNS alphas = some .trnsNone ∧ pngBody 6 tTRNS alphas = some .trnsNone := by
+  have e : ∀ v, v < 65536 → beNat (toBE 2 v) = v := fun v hv => by
+    rw [beNat_toBE]; exact Nat.mod_eq_of_lt (by simpa using hv)
+  have t : ∀ v (rest : Bytes), takeN 2 (toBE 2 v ++ rest) = some (toBE 2 v, rest) := fun v rest => takeN_append _ _ 2 (toBE_length _ _)
+  have n1 : tTRNS ≠ tIHDR := by decide
+  have n2 : tTRNS ≠ tPLTE := by decide
+  refine ⟨?_, ?_, ?_, ?_, ?_⟩
+  · have := t a []
+    simp only [List.append_nil] at this
+    simp [pngBody, n1, n2, this, e a ha]
+  · simp only [pngBody, n1, n2, if_false, if_true, List.append_assoc, t, Option.bind_eq_bind, Option.bind_some]
+    have := t b []
+    simp only [List.append_nil] at this
+    simp [this, e r hr, e g hg, e b hb]
+  · simp [pngBody, n1, n2]
+  · simp [pngBody, n1, n2]
+  · simp [pngBody, n1, n2]
+
+/-- the IDAT stream: for ANY way of cutting a byte string `zs` into pieces (`parts.flatten = zs`; empty pieces and any number of
+    them allowed), written as consecutive IDAT chunks between any other chunks `pre` / `post` (none of them IDAT or IEND), the
+    concatenation, in file order, of the `data` fq reports for the IDAT chunks is `zs` — every chunk with its crc `valid` -/
+theorem png_idat_concat (pre post : List (Bytes × Bytes)) (parts : List Bytes) (zs : Bytes) (hz : parts.flatten = zs)
+    (hpre : ∀ c ∈ pre, PngOk c.1 c.2 ∧ c.1 ≠ tIEND ∧ c.1 ≠ tIDAT) (hpost : ∀ c ∈ post, PngOk c.1 c.2 ∧ c.1 ≠ tIEND ∧ c.1 ≠ tIDAT)
+    (hparts : ∀ p ∈ parts, p.length < 2 ^ 32) (rest : Bytes) :
+    ∃ r, parsePng (writePng ((pre ++ parts.map (fun p => (tIDAT, p)) ++ post) ++ [(tIEND, [])]) ++ rest) = some r ∧ r.err = false ∧
+      idatStream r.chunks = zs ∧ ∀ c ∈ r.chunks, c.crcDesc = "valid" := by
+  have hok : ∀ c ∈ pre ++ parts.map (fun p => (tIDAT, p)) ++ post, PngOk c.1 c.2 ∧ c.1 ≠ tIEND := by
+    intro c hc
+    simp only [List.mem_append, List.mem_map] at hc
+    rcases hc with (hc | ⟨p, hp, rfl⟩) | hc
+    · exact ⟨(hpre c hc).1, (hpre c hc).2.1⟩
+    · exact ⟨⟨(by show tIDAT.length = 4; decide), hparts p hp, (by intro h; exact absurd h (by show ¬ tIDAT = tIHDR; decide))⟩, (by show tIDAT ≠ tIEND; decide)⟩
+    · exact ⟨(hpost c hc).1, (hpost c hc).2.1⟩
+  refine ⟨_, png_roundtrip _ (fun c hc => (hok c hc).1) (fun c hc => (hok c hc).2) [] rest ⟨by decide, by decide, by intro h; exact absurd h (by decide)⟩, rfl, ?_, ?_⟩
+  · simp only [List.map_append, idatStream_append, List.map_map]
+    rw [idatStream_none pre (fun c hc => (hpre c hc).2.2), idatStream_none post (fun c hc => (hpost c hc).2.2)]
+    have : idatStream [pngChunkOf tIEND []] = [] := by decide
+    have e : List.map (ch ∘ fun p => (tIDAT, p)) parts = parts.map (fun p => pngChunkOf tIDAT p) := rfl
+    rw [this, e, idatStream_idats, hz]
+    simp
+  · intro c hc
+    simp only [List.mem_append, List.mem_map, List.mem_singleton] at hc
+    rcases hc with ⟨x, _, rfl⟩ | rfl <;> rfl
+
+/-- two cuttings of the same stream give the same IDAT stream (and a reader of the zlib framing sees the writer's stream:
+    compose with `zlib_roundtrip`) -/
+example : idatStream ([[1, 2], [], [3]].map (fun p => pngChunkOf tIDAT p)) = idatStream ([[1], [2, 3]].map (fun p => pngChunkOf tIDAT p)) := by decide
+
+/-- bodies of an image file as the writers lay it out — IHDR, optional PLTE, optional tRNS, any IDAT pieces, IEND — with the
+    colour type remembered from IHDR deciding how tRNS is read -/
+theorem png_image_bodies (i : Ihdr) (hw : i.width < 2 ^ 32) (hh : i.height < 2 ^ 32) (hb : i.bitDepth < 256) (hc : i.colorType < 256)
+    (hm : i.compression < 256) (hf : i.filter < 256) (hi : i.interlace < 256) (cols : List (UInt8 × UInt8 × UInt8))
+    (td : Bytes) (tb : PngBody) (ht : pngBody i.colorType tTRNS td = some tb) (parts : List Bytes) :
+    pngBodies 0 ([pngChunkOf tIHDR (writeIHDR i), pngChunkOf tPLTE (writePlte cols), pngChunkOf tTRNS td] ++
+                 (parts.map (fun p => pngChunkOf tIDAT p) ++ [pngChunkOf tIEND []])) =
+      some ([.ihdr i, .plte cols, tb] ++ (parts.map PngBody.raw ++ [.iend])) := by
+  have h1 := (png_ihdr_roundtrip i hw hh hb hc hm hf hi 0).1
+  have h2 := (png_plte_roundtrip cols i.colorType).1
+  have d1 : (pngChunkOf tIHDR (writeIHDR i)).data = writeIHDR i := rfl
+  have d2 : (pngChunkOf tPLTE (writePlte cols)).data = writePlte cols := rfl
+  have d3 : (pngChunkOf tTRNS td).data = td := rfl
+  have hend : ∀ ct, pngBodies ct [pngChunkOf tIEND []] = some [.iend] := by
+    intro ct
+    simp [pngBodies, pngBody, pngChunkOf_typ, show tIEND ≠ tIHDR by decide, show tIEND ≠ tPLTE by decide, show tIEND ≠ tTRNS by decide]
+  simp only [List.cons_append, List.nil_append, pngBodies, pngChunkOf_typ, d1, d2, d3, h1, h2, ht]
+  rw [pngBodies_idats, hend]
+  simp
+
+example : pngBody 3 tTRNS [0, 255] = some (.trnsPal [0, 255]) := by decide
+
+/-! ## gzip: members, ISIZE, FHCRC -/
+
+/-- ANY number (>= 1) of members, each with any header fields in `GzOk` (decoder's flag order), any deflate bytes and payload
+    (flate as a parameter: `InflOk`): fq reports every member with its header, compressed size, crc32 `valid`, ISIZE, payload,
+    and the root `uncompressed` is the concatenation of all payloads in order -/
+theorem gzip_multi_member_roundtrip (inflate : Bytes → Option (Nat × Bytes)) (ms : List GzMemberW) (hne : ms ≠ []) (hok : ∀ m ∈ ms, GzOk m.h)
+    (hinf : InflOk inflate ms) :
+    parseGzip inflate (writeGzip ms) = some (ms.map GzMemberW.view, ms.flatMap (·.data)) :=
+  gzip_rt inflate ms hne hok hinf
+
+def exGzW (d : Bytes) : GzMemberW :=
+  { h := { text := false, mtime := 0, xfl := 0, os := 3, extra := none, name := none, comment := none, hcrc := none }, z := [1, 0, 0, 0xff, 0xff], data := d }
+
+/-- the hypotheses are satisfiable (an oracle that answers for the two members), and the instance computes -/
+example : parseGzip (fun bs => if bs.length > 20 then some (5, [0x61]) else some (5, [0x62])) (writeGzip [exGzW [0x61], exGzW [0x62]]) =
+    some ([(exGzW [0x61]).view, (exGzW [0x62]).view], [0x61, 0x62]) := by decide +kernel
+
+/-- no member at all is a decode error (`no members found`) -/
+theorem gzip_empty_is_error (inflate : Bytes → Option (Nat × Bytes)) : parseGzip inflate [] = none := rfl
+
+/-- ISIZE: fq shows the four stored bytes as a number and never compares them with the payload; a writer stores the length
+    modulo 2^32, so that is what is reported for EVERY payload length (also >= 4 GiB), and it is the length itself below 4 GiB -/
+theorem gzip_isize_mod (inflate : Bytes → Option (Nat × Bytes)) (z data rest : Bytes)
+    (hinf : inflate (z ++ (writeGzTrailer data ++ rest)) = some (z.length, data)) :
+    ∃ b, parseGzBody inflate 8 (z ++ (writeGzTrailer data ++ rest)) = some (b, rest) ∧ b.isize = data.length % 2 ^ 32 ∧
+      (data.length < 2 ^ 32 → b.isize = data.length) :=
+  ⟨_, gz_body_rt inflate z data rest hinf, rfl, fun h => Nat.mod_eq_of_lt h⟩
+
+/-- the trailer as it is read: ANY stored crc32 and ANY four ISIZE bytes. The crc is `valid` iff it is the payload's CRC-32
+    (`invalid` otherwise — with `crc32_detects_byte`: after any single altered payload byte); the ISIZE bytes change nothing
+    but the number shown (not validated: part of the known finding `checksum-not-validated`) -/
+theorem gzip_trailer_flags (inflate : Bytes → Option (Nat × Bytes)) (z data rest : Bytes) (c : Nat) (hc : c < 2 ^ 32) (i4 : Bytes) (hi : i4.length = 4)
+    (hinf : inflate (z ++ (toLE 4 c ++ (i4 ++ rest))) = some (z.length, data)) :
+    parseGzBody inflate 8 (z ++ (toLE 4 c ++ (i4 ++ rest))) =
+      some ({ clen := z.length, crc := c, crcDesc := if c = (crc32 data).toNat then "valid" else "invalid", isize := leNat i4, data := data }, rest) :=
+  gz_body_gen inflate z data rest c hc i4 hi hinf
+
+/-- FHCRC: a header carrying the CRC16 RFC 1952 defines (low 16 bits of the CRC-32 of the header bytes before it) is read back
+    with exactly those two bytes as `header_crc`; and so is a header with ANY other two bytes there — fq does not validate the
+    field (gzip.go:96 `TODO: validate`; known finding `checksum-not-validated`) -/
+theorem gzip_fhcrc_raw (h : GzFields) (ok : GzOk h) (rest : Bytes) :
+    parseGzHeader (writeGzHeaderAsIs (gzWithHcrc h) ++ rest) = some ((gzWithHcrc h).header, rest) ∧
+    (gzWithHcrc h).header.hcrcBytes = some (toLE 2 ((crc32 (writeGzHeaderAsIs { h with hcrc := some [] })).toNat % 65536)) ∧
+    ∀ c : Bytes, c.length = 2 → parseGzHeader (writeGzHeaderAsIs { h with hcrc := some c } ++ rest) = some (({ h with hcrc := some c } : GzFields).header, rest) :=
+  ⟨gz_roundtrip _ (gzWithHcrc_ok h ok) rest, rfl, fun c hc =>
+    gz_roundtrip { h with hcrc := some c } ⟨ok.mtime, ok.xfl, ok.os, ok.extra, ok.name, ok.comment, by
+      intro x hx; simp only [Option.some.injEq] at hx; subst hx; exact hc⟩ rest⟩
+
+
+/-! ## tar: numeric fields in base-256 -/
+
+/-- the extension itself is a bijection on 88 bit values: what a writer stores is what a reader of the extension recovers -/
+theorem tar_b256_field_roundtrip (n : Nat) (h : n < 256 ^ 11) : parseB256 (b256Field n) = some n ∧ (b256Field n).length = 12 := by
+  refine ⟨?_, by simp [b256Field, toBE_length]⟩
+  simp only [parseB256, b256Field, if_true]
+  rw [beNat_toBE, Nat.mod_eq_of_lt h]
+
+/- FULL STATEMENT (false of the current code): `tar_roundtrip` also for members whose size field is written in base-256
+   (every member of 8 GiB or more; GNU tar, star, Python's tarfile and Go's archive/tar all read the field for any value).
+   Witness: an intact archive with one 3 byte member whose size is stored as 80 00 … 03 decodes to an error with no file:
+   fq only knows octal text (tar.go:57-60 `could not decode size`); replayed on the real binary (see DESIGN / report). -/
+theorem tar_base256_size_is_error :
+    parseTar (writeTarB256 { exMember with chksum := 0 }) = ⟨[], none, true⟩ ∧
+    (writeTarB256 { exMember with chksum := 0 }).length = 2048 ∧
+    parseTar (writeTar [{ exMember with chksum := 0 }]) = ⟨[TarMember.entry { exMember with chksum := 0 }], some 1024, false⟩ := by
+  decide +kernel
+
 
 end Props.C15
